@@ -5,6 +5,8 @@ def V(variant, shards, scale=1.0, env=None, args=()):
 
 ALG = ["algebra/main.cpp"] + ["algebra/c%s.cpp" % n for n in ("01", "02", "03", "06", "11", "12", "13")]
 
+SOLVER = ["solver/main.cpp", "solver/c04.cpp", "solver/c17.cpp", "solver/stubs.cpp"]
+
 PROPS = {
     "C01": dict(
         harness="h_algebra", sources=ALG, level="exploration",
@@ -90,5 +92,28 @@ PROPS = {
                            "branch.9.n2": 3, "branch.13.n2": 10, "utransform.d2": 200, "reevaluated_after_other_history": 500, "judged": 3000},
                     thorough={"branch.9": 2000, "branch.9.n2": 50, "judged": 100000}),
         assumptions=["inputs with condition allowance above 1e6 or a non-representable exponential are counted and skipped", "the hook reports branch and squarings; a missing event is a harness error"],
+    ),
+    "C04": dict(
+        harness="h_solver", sources=SOLVER, level="exploration",
+        variants=dict(quick=[V("asan", 8, 0.15), V("opt", 16)], thorough=[V("asan", 8, 0.1), V("opt", 16)]),
+        rule="switch setting = case mod 32 (all 2^5), stepper mode cycles over 11 (rk2, rk4, rkf45, rkck, rk8pd adaptive and fixed; msadams adaptive), d cycles 2..6; nx in 1..5, "
+             "nrhos 1..3, nscalars 0..3, t_ini in {0,+-0.5,1000}, 1-2 Evolve segments, tolerances 1e-8..1e-11 random. Exact solutions: manufactured (trigonometric targets, non-commuting "
+             "time-dependent HI, GammaRho; source defined from the target) when the source is on, commuting family with time-dependent rates otherwise; scalars likewise. Disabled terms "
+             "return NaN. Online monitor: index ranges, time of every term call == time of the opening PreDerive, every enabled term called for every (node,index) per derivative "
+             "evaluation, all times inside the Evolve window. distinct_nontrivial = distinct configurations.",
+        floors=dict(quick={"stepper.rk2/adaptive": 20, "stepper.msadams/adaptive": 20, "stepper.rk8pd/fixed": 20, "switches.-----": 10, "switches.CNOGS": 10, "dim.2": 50, "dim.6": 50, "derivative_evaluations": 100000},
+                    thorough={"stepper.rk2/adaptive": 1000, "derivative_evaluations": 5000000}),
+        assumptions=["adaptive allowance 1e4*(abs+rel*|y|); fixed-step allowance 1e-5(1+|y|) (1e-4 for rk2) with step counts chosen for an a-priori error below 1e-7", "generated rates are bounded (|H|T,|Gamma|T<=3): no stiff problems"],
+    ),
+    "C17": dict(
+        harness="h_solver", sources=SOLVER, level="exploration",
+        variants=dict(quick=[V("asan", 8, 0.3), V("opt", 8)], thorough=[V("asan", 8, 0.3), V("opt", 16)]),
+        rule="nx = 2..130 exhaustively, then random nx up to 5000; for each nx a linear grid (ends over 20 decades, incl. a=0 and integers), a logarithmic grid (a>=1e-10, ratio up to 1e10) and a "
+             "user grid (uniform, geometric, clustered, huge gaps, log-random steps). Grid predicates: node count, finite, non-decreasing, first node, last node within the ulp allowance, every "
+             "node against the documented formula; user grid stored bitwise, unsorted/wrong-size rejected without change. Lookup: every node, node+-1ulp, midpoints, random points per "
+             "interval, ten outside points incl. +-inf: bracket predicate / last interval for x_last / exception outside.",
+        floors=dict(quick={"nx.exhaustive_2_130": 129, "nx_minus_1.other": 200, "grid.linear": 300, "grid.log": 300, "grid.user": 300, "lookup.inside": 200000, "lookup.outside": 5000},
+                    thorough={"nx.exhaustive_2_130": 129, "lookup.inside": 5000000}),
+        assumptions=["logarithmic grids use a>=1e-10 because the library documents a refusal below that"],
     ),
 }
